@@ -22,6 +22,10 @@ MenuBasic == <<
 MenuReject == MenuBasic \o <<
     [kind |-> "unknown", len |-> 1, rows |-> (1 :> <<8>>)],
     [kind |-> "ragged", len |-> 2, rows |-> (1 :> <<8, 8>> @@ 2 :> <<8, 8>>)] >>
+\* rows of unequal length again, the short one a single value (the harness cuts one row to its first entry): a
+\* one-element row is not a constant to be spread over the periods - the schedule is rejected like any ragged one
+MenuRejectGen == MenuReject \o <<
+    [kind |-> "ragged1", len |-> 3, rows |-> (1 :> <<8, 16, 24>> @@ 2 :> <<16, 16, 16>>)] >>
 
 MenuLong == <<
     [kind |-> "ok", len |-> 0, rows |-> <<>>],
@@ -33,7 +37,10 @@ MenuLong == <<
 MenuC04 == MenuLong \o <<
     [kind |-> "ok", len |-> 2, rows |-> (2 :> <<24, 24>>)],
     [kind |-> "unknown", len |-> 2, rows |-> (1 :> <<8, 8>>)],
-    [kind |-> "ragged", len |-> 2, rows |-> (1 :> <<8, 8>> @@ 2 :> <<8, 8>>)] >>
+    [kind |-> "ragged", len |-> 2, rows |-> (1 :> <<8, 8>> @@ 2 :> <<8, 8>>)],
+    \* rows of unequal length again, the short one a single value (the harness cuts one row to its first entry): a
+    \* one-element row is not a constant to be spread over the periods - the schedule is rejected like any ragged one
+    [kind |-> "ragged1", len |-> 3, rows |-> (1 :> <<8, 16, 24>> @@ 2 :> <<16, 16, 16>>)] >>
 
 MenuOne == << [kind |-> "ok", len |-> 1, rows |-> (1 :> <<32>> @@ 2 :> <<16>>)],
               [kind |-> "ok", len |-> 2, rows |-> (1 :> <<8, 8>>)] >>
@@ -60,6 +67,7 @@ StrayWide == {{}, {1}, {0, 3}, {7, 15}, {19}, {1009}, {2012}, {3010, 5}, {1006, 
 
 ReqSmall == {8320, 50000}
 Req3 == {8320, 33310, 50000}
+Req4 == {0, 8320, 33310, 50000}     \* 0: a session that asks for nothing is a session all the same (plugged in, never active)
 
 \* non-integral pilots: units of 1/2 A (15 = 7.5 A, 13 = 6.5 A, 64 = 32 A); V*T is even for 208/240/120 V, T = 5
 PU2 == 2
